@@ -145,6 +145,11 @@ func (n *Node) FreshEngine() *bft.Engine {
 
 // MakeBlock builds and signs a block (any parent, any signer, any COM bit, any total score): the caller decides
 // whether it is an honest proposal or a Byzantine one. salt distinguishes equivocating siblings.
+// The header carries a base fee (the post-GALACTICA header format): only then is the extension (alpha, COM, base fee)
+// part of the signing hash and hence of the block id. A header WITHOUT base fee does not bind its COM bit to its id
+// (block/header.go signingFields): two such blocks differing only in the COM bit share one id, a node stores whichever
+// arrives first, and "the set of blocks" is no longer determined by the ids (this made two nodes "storing the same
+// ids" hold different tallies in the thorough tier before the simulator switched to the current header format).
 func (s *Sim) MakeBlock(parent *block.Header, signer int, com bool, totalScore uint64, salt uint64) *block.Block {
 	builder := new(block.Builder).
 		ParentID(parent.ID()).
@@ -152,7 +157,8 @@ func (s *Sim) MakeBlock(parent *block.Header, signer int, com bool, totalScore u
 		TotalScore(totalScore).
 		GasLimit(parent.GasLimit()).
 		StateRoot(parent.StateRoot()).
-		ReceiptsRoot(parent.ReceiptsRoot())
+		ReceiptsRoot(parent.ReceiptsRoot()).
+		BaseFee(big.NewInt(thor.InitialBaseFee))
 	if com {
 		builder.COM()
 	}
